@@ -206,4 +206,201 @@ pub proof fn lemma_pack_payer_ge_receiver(adjustment: int, funding_value: int, o
     lemma_div_pos_is_pos(x, open_interest);
     lemma_div_is_ordered(b, a + price - 1, price);
 }
+
+// ---------------------------------------------------------------------------------------------
+// the action: UpdateFundingState::execute - the eight indices only grow
+// ---------------------------------------------------------------------------------------------
+//@unit C12.flags_to_index
+//@ file crates/model/src/action/update_funding_state.rs
+//@ fn flags_to_index
+//@ sig fn flags_to_index(is_long: bool, is_long_collateral: bool) -> usize
+fn flags_to_index(is_long: bool, is_long_collateral: bool) -> (r: usize)
+    ensures r < 4, r == slot(is_long, is_long_collateral),
+//@body
+pub open spec fn slot(is_long: bool, is_long_collateral: bool) -> int { (if is_long_collateral { 0int } else { 2int }) + (if is_long { 0int } else { 1int }) }
+
+//@struct crates/model/src/action/update_funding_state.rs :: pub struct UpdateFundingReport<Unsigned, Signed> :: duration_in_seconds, next_funding_factor_per_second, delta_funding_amount_per_size, delta_claimable_funding_amount_per_size
+/// the deltas are UNSIGNED in the repository's type: an index cannot be asked to move down
+pub struct UpdateFundingReport { pub duration_in_seconds: u64, pub next_funding_factor_per_second: S, pub delta_funding_amount_per_size: [N; 4], pub delta_claimable_funding_amount_per_size: [N; 4] }
+impl UpdateFundingReport {
+//@unit C12.UpdateFundingReport.next_funding_factor_per_second
+//@ file crates/model/src/action/update_funding_state.rs
+//@ within impl<T: Unsigned> UpdateFundingReport<T, T::Signed>
+//@ fn next_funding_factor_per_second
+//@ sig fn next_funding_factor_per_second(&self) -> &T::Signed
+    pub fn next_funding_factor_per_second(&self) -> (r: &S) ensures *r == self.next_funding_factor_per_second
+//@body
+//@unit C12.UpdateFundingReport.delta_funding_amount_per_size
+//@ file crates/model/src/action/update_funding_state.rs
+//@ within impl<T: Unsigned> UpdateFundingReport<T, T::Signed>
+//@ fn delta_funding_amount_per_size
+//@ sig fn delta_funding_amount_per_size(&self, is_long: bool, is_long_collateral: bool) -> &T
+    pub fn delta_funding_amount_per_size(&self, is_long: bool, is_long_collateral: bool) -> (r: &N)
+        ensures *r == self.delta_funding_amount_per_size[slot(is_long, is_long_collateral)]
+//@body
+//@unit C12.UpdateFundingReport.delta_claimable_funding_amount_per_size
+//@ file crates/model/src/action/update_funding_state.rs
+//@ within impl<T: Unsigned> UpdateFundingReport<T, T::Signed>
+//@ fn delta_claimable_funding_amount_per_size
+//@ sig fn delta_claimable_funding_amount_per_size( &self, is_long: bool, is_long_collateral: bool, ) -> &T
+    pub fn delta_claimable_funding_amount_per_size(&self, is_long: bool, is_long_collateral: bool) -> (r: &N)
+        ensures *r == self.delta_claimable_funding_amount_per_size[slot(is_long, is_long_collateral)]
+//@body
+}
+
+/// a per-size index pool: one slot per collateral token
+#[derive(Clone, Copy)]
+pub struct IdxPool { pub long: N, pub short: N }
+pub open spec fn ip(p: IdxPool, is_long_collateral: bool) -> int { if is_long_collateral { p.long@ } else { p.short@ } }
+impl IdxPool {
+    /// ASSUMED trait contracts of `Pool::apply_delta_to_long_amount / _short_amount` (required methods; store-side pool: C15)
+    #[verifier::external_body]
+    pub fn apply_delta_to_long_amount(&mut self, delta: &S) -> (r: Result<(), E>)
+        ensures r.is_ok() ==> final(self).long@ == old(self).long@ + delta@ && final(self).short == old(self).short, r.is_err() ==> *final(self) == *old(self)
+    { unimplemented!() }
+    #[verifier::external_body]
+    pub fn apply_delta_to_short_amount(&mut self, delta: &S) -> (r: Result<(), E>)
+        ensures r.is_ok() ==> final(self).short@ == old(self).short@ + delta@ && final(self).long == old(self).long, r.is_err() ==> *final(self) == *old(self)
+    { unimplemented!() }
+//@unit C12.PoolExt.apply_delta_amount
+//@ file crates/model/src/pool/mod.rs
+//@ within pub trait PoolExt: Pool
+//@ fn apply_delta_amount
+//@ sig fn apply_delta_amount(&mut self, is_long: bool, delta: &Self::Signed) -> crate::Result<()>
+    pub fn apply_delta_amount(&mut self, is_long: bool, delta: &S) -> (r: Result<(), E>)
+        ensures r.is_ok() ==> ip(*final(self), is_long) == ip(*old(self), is_long) + delta@ && ip(*final(self), !is_long) == ip(*old(self), !is_long),
+                r.is_err() ==> *final(self) == *old(self)
+//@body
+}
+
+/// Carrier for `M: PerpMarketMut` as the action writes it: the four index pools (funding / claimable x long / short side), the
+/// stored funding factor and the funding clock (ghost log of the durations it handed out)
+pub struct XMarket { pub fa_long: IdxPool, pub fa_short: IdxPool, pub cl_long: IdxPool, pub cl_short: IdxPool, pub factor: S, pub ticks: Ghost<Seq<u64>> }
+pub open spec fn fidx(m: XMarket, is_long: bool, c: bool) -> int { ip(if is_long { m.fa_long } else { m.fa_short }, c) }
+pub open spec fn cidx(m: XMarket, is_long: bool, c: bool) -> int { ip(if is_long { m.cl_long } else { m.cl_short }, c) }
+impl XMarket {
+    pub fn funding_amount_per_size_pool_mut(&mut self, is_long: bool) -> (r: Result<&mut IdxPool, E>)
+        ensures r.is_ok(), *r.unwrap() == (if is_long { old(self).fa_long } else { old(self).fa_short }),
+            is_long ==> *final(self) == (XMarket { fa_long: *final(r.unwrap()), ..*old(self) }),
+            !is_long ==> *final(self) == (XMarket { fa_short: *final(r.unwrap()), ..*old(self) }),
+    { if is_long { Ok(&mut self.fa_long) } else { Ok(&mut self.fa_short) } }
+    pub fn claimable_funding_amount_per_size_pool_mut(&mut self, is_long: bool) -> (r: Result<&mut IdxPool, E>)
+        ensures r.is_ok(), *r.unwrap() == (if is_long { old(self).cl_long } else { old(self).cl_short }),
+            is_long ==> *final(self) == (XMarket { cl_long: *final(r.unwrap()), ..*old(self) }),
+            !is_long ==> *final(self) == (XMarket { cl_short: *final(r.unwrap()), ..*old(self) }),
+    { if is_long { Ok(&mut self.cl_long) } else { Ok(&mut self.cl_short) } }
+    pub fn funding_factor_per_second_mut(&mut self) -> (r: &mut S)
+        ensures *r == old(self).factor, *final(self) == (XMarket { factor: *final(r), ..*old(self) })
+    { &mut self.factor }
+    /// ASSUMED (clock): hands out the elapsed seconds and restarts the funding clock
+    #[verifier::external_body]
+    pub fn just_passed_in_seconds_for_funding(&mut self) -> (r: Result<u64, E>)
+        ensures r.is_ok() ==> *final(self) == (XMarket { ticks: Ghost(old(self).ticks@.push(r.unwrap())), ..*old(self) }), r.is_err() ==> *final(self) == *old(self)
+    { unimplemented!() }
+
+//@unit C12.PerpMarketMutExt.apply_delta_to_funding_amount_per_size
+//@ file crates/model/src/market/perp.rs
+//@ within pub trait PerpMarketMutExt<const DECIMALS: u8>: PerpMarketMut<DECIMALS>
+//@ fn apply_delta_to_funding_amount_per_size
+//@ sig fn apply_delta_to_funding_amount_per_size( &mut self, is_long: bool, is_long_collateral: bool, delta: &Self::Signed, ) -> crate::Result<()>
+    pub fn apply_delta_to_funding_amount_per_size(&mut self, is_long: bool, is_long_collateral: bool, delta: &S) -> (r: Result<(), E>)
+        ensures
+            r.is_ok() ==> fidx(*final(self), is_long, is_long_collateral) == fidx(*old(self), is_long, is_long_collateral) + delta@
+                && fidx(*final(self), is_long, !is_long_collateral) == fidx(*old(self), is_long, !is_long_collateral)
+                && fidx(*final(self), !is_long, true) == fidx(*old(self), !is_long, true) && fidx(*final(self), !is_long, false) == fidx(*old(self), !is_long, false)
+                && final(self).cl_long == old(self).cl_long && final(self).cl_short == old(self).cl_short && final(self).factor == old(self).factor && final(self).ticks@ == old(self).ticks@,
+            r.is_err() ==> *final(self) == *old(self),
+//@body
+
+//@unit C12.PerpMarketMutExt.apply_delta_to_claimable_funding_amount_per_size
+//@ file crates/model/src/market/perp.rs
+//@ within pub trait PerpMarketMutExt<const DECIMALS: u8>: PerpMarketMut<DECIMALS>
+//@ fn apply_delta_to_claimable_funding_amount_per_size
+//@ sig fn apply_delta_to_claimable_funding_amount_per_size( &mut self, is_long: bool, is_long_collateral: bool, delta: &Self::Signed, ) -> crate::Result<()>
+    pub fn apply_delta_to_claimable_funding_amount_per_size(&mut self, is_long: bool, is_long_collateral: bool, delta: &S) -> (r: Result<(), E>)
+        ensures
+            r.is_ok() ==> cidx(*final(self), is_long, is_long_collateral) == cidx(*old(self), is_long, is_long_collateral) + delta@
+                && cidx(*final(self), is_long, !is_long_collateral) == cidx(*old(self), is_long, !is_long_collateral)
+                && cidx(*final(self), !is_long, true) == cidx(*old(self), !is_long, true) && cidx(*final(self), !is_long, false) == cidx(*old(self), !is_long, false)
+                && final(self).fa_long == old(self).fa_long && final(self).fa_short == old(self).fa_short && final(self).factor == old(self).factor && final(self).ticks@ == old(self).ticks@,
+            r.is_err() ==> *final(self) == *old(self),
+//@body
+}
+
+/// how often the pair (is_long, c) occurs among the first `k` entries of the walk
+pub open spec fn cnt(s: Seq<(bool, bool)>, k: int, is_long: bool, c: bool) -> int decreases k {
+    if k <= 0 { 0 } else { cnt(s, k - 1, is_long, c) + (if s[k - 1] == (is_long, c) { 1int } else { 0int }) }
+}
+/// after `k` steps of the walk `s`: both indices of a pair have moved up by its (unsigned) delta once per visit
+pub open spec fn walked(m0: XMarket, m: XMarket, rep: UpdateFundingReport, s: Seq<(bool, bool)>, k: int, is_long: bool, c: bool) -> bool {
+    &&& fidx(m, is_long, c) == fidx(m0, is_long, c) + cnt(s, k, is_long, c) * rep.delta_funding_amount_per_size[slot(is_long, c)]@
+    &&& cidx(m, is_long, c) == cidx(m0, is_long, c) + cnt(s, k, is_long, c) * rep.delta_claimable_funding_amount_per_size[slot(is_long, c)]@
+}
+pub open spec fn walked_all(m0: XMarket, m: XMarket, rep: UpdateFundingReport, s: Seq<(bool, bool)>, k: int) -> bool {
+    walked(m0, m, rep, s, k, true, true) && walked(m0, m, rep, s, k, true, false) && walked(m0, m, rep, s, k, false, true) && walked(m0, m, rep, s, k, false, false)
+}
+/// every index has moved up by exactly its delta
+pub open spec fn moved_once(m0: XMarket, m: XMarket, rep: UpdateFundingReport, is_long: bool, c: bool) -> bool {
+    fidx(m, is_long, c) == fidx(m0, is_long, c) + rep.delta_funding_amount_per_size[slot(is_long, c)]@
+        && cidx(m, is_long, c) == cidx(m0, is_long, c) + rep.delta_claimable_funding_amount_per_size[slot(is_long, c)]@
+}
+pub proof fn lemma_once(m0: XMarket, m: XMarket, rep: UpdateFundingReport, s: Seq<(bool, bool)>)
+    requires walked_all(m0, m, rep, s, 4), cnt(s, 4, true, true) == 1 && cnt(s, 4, true, false) == 1 && cnt(s, 4, false, true) == 1 && cnt(s, 4, false, false) == 1
+    ensures moved_once(m0, m, rep, true, true) && moved_once(m0, m, rep, true, false) && moved_once(m0, m, rep, false, true) && moved_once(m0, m, rep, false, false)
+{
+    lemma_mul_basics(rep.delta_funding_amount_per_size[0]@); lemma_mul_basics(rep.delta_funding_amount_per_size[1]@);
+    lemma_mul_basics(rep.delta_funding_amount_per_size[2]@); lemma_mul_basics(rep.delta_funding_amount_per_size[3]@);
+    lemma_mul_basics(rep.delta_claimable_funding_amount_per_size[0]@); lemma_mul_basics(rep.delta_claimable_funding_amount_per_size[1]@);
+    lemma_mul_basics(rep.delta_claimable_funding_amount_per_size[2]@); lemma_mul_basics(rep.delta_claimable_funding_amount_per_size[3]@);
+}
+pub proof fn lemma_walk_step(m0: XMarket, m2: XMarket, m3: XMarket, rep: UpdateFundingReport, s: Seq<(bool, bool)>, k: int, a: bool, b: bool)
+    requires 0 <= k < s.len(), s[k] == (a, b), walked_all(m0, m2, rep, s, k),
+        fidx(m3, a, b) == fidx(m2, a, b) + rep.delta_funding_amount_per_size[slot(a, b)]@, cidx(m3, a, b) == cidx(m2, a, b) + rep.delta_claimable_funding_amount_per_size[slot(a, b)]@,
+        fidx(m3, a, !b) == fidx(m2, a, !b) && fidx(m3, !a, true) == fidx(m2, !a, true) && fidx(m3, !a, false) == fidx(m2, !a, false),
+        cidx(m3, a, !b) == cidx(m2, a, !b) && cidx(m3, !a, true) == cidx(m2, !a, true) && cidx(m3, !a, false) == cidx(m2, !a, false),
+    ensures walked_all(m0, m3, rep, s, k + 1)
+{
+    let df = rep.delta_funding_amount_per_size[slot(a, b)]@; let dc = rep.delta_claimable_funding_amount_per_size[slot(a, b)]@;
+    assert(cnt(s, k + 1, a, b) == cnt(s, k, a, b) + 1);
+    assert(cnt(s, k + 1, a, !b) == cnt(s, k, a, !b));
+    assert(cnt(s, k + 1, !a, true) == cnt(s, k, !a, true));
+    assert(cnt(s, k + 1, !a, false) == cnt(s, k, !a, false));
+    lemma_mul_is_distributive_add_other_way(df, cnt(s, k, a, b), 1);
+    lemma_mul_is_distributive_add_other_way(dc, cnt(s, k, a, b), 1);
+}
+pub struct UpdateFundingStateX { pub market: XMarket }
+impl UpdateFundingStateX {
+    /// ASSUMED: next_funding_amount_per_size (the rate: unit C12.next_funding_factor_per_second above; the deltas: C08 set_deltas):
+    /// an arbitrary report for that duration - its deltas are unsigned by type
+    #[verifier::external_body]
+    fn next_funding_amount_per_size(&self, duration_in_seconds: u64) -> (r: Result<UpdateFundingReport, E>)
+        ensures r.is_ok() ==> r.unwrap().duration_in_seconds == duration_in_seconds
+    { unimplemented!() }
+
+//@unit C12.UpdateFundingState.execute
+//@ file crates/model/src/action/update_funding_state.rs
+//@ within impl<M: PerpMarketMut<DECIMALS>, const DECIMALS: u8> MarketAction
+//@ fn execute
+//@ sig fn execute(mut self) -> crate::Result<Self::Report>
+//@ sub const MATRIX: \[\(bool, bool\); 4\] = => let MATRIX: [(bool, bool); 4] =
+//@ sub for \(is_long, is_long_collateral\) in MATRIX \{ => let ghost m1 = self.market; let mut _k12: usize = 0; while _k12 < 4 { let (is_long, is_long_collateral) = MATRIX[_k12]; let ghost m2 = self.market; _k12 += 1;
+//@ loop 1: invariant _k12 <= 4, walked_all(m1, self.market, report, MATRIX@, _k12 as int), self.market.factor == m1.factor, self.market.ticks@ == m1.ticks@, decreases 4 - _k12,
+//@ after .apply_delta_to_claimable_funding_amount_per_size( :: proof { lemma_walk_step(m1, m2, self.market, report, MATRIX@, _k12 as int - 1, is_long, is_long_collateral); }
+//@ before *self.market.funding_factor_per_second_mut() = :: proof { reveal_with_fuel(cnt, 6); assert(cnt(MATRIX@, 4, true, true) == 1 && cnt(MATRIX@, 4, true, false) == 1 && cnt(MATRIX@, 4, false, true) == 1 && cnt(MATRIX@, 4, false, false) == 1); lemma_once(m1, self.market, report, MATRIX@); }
+    #[verifier::loop_isolation(false)]
+    fn execute(&mut self) -> (r: Result<UpdateFundingReport, E>)
+        ensures
+            // the clock is read and restarted exactly once and the report is for exactly those seconds
+            r.is_ok() ==> final(self).market.ticks@ == old(self).market.ticks@.push(r.unwrap().duration_in_seconds),
+            // EVERY ONE OF THE EIGHT INDICES MOVES UP BY ITS (UNSIGNED) DELTA: none ever decreases
+            r.is_ok() ==> moved_once(old(self).market, final(self).market, r.unwrap(), true, true) && moved_once(old(self).market, final(self).market, r.unwrap(), true, false)
+                && moved_once(old(self).market, final(self).market, r.unwrap(), false, true) && moved_once(old(self).market, final(self).market, r.unwrap(), false, false),
+            r.is_ok() ==> fidx(final(self).market, true, true) >= fidx(old(self).market, true, true) && fidx(final(self).market, true, false) >= fidx(old(self).market, true, false)
+                && fidx(final(self).market, false, true) >= fidx(old(self).market, false, true) && fidx(final(self).market, false, false) >= fidx(old(self).market, false, false)
+                && cidx(final(self).market, true, true) >= cidx(old(self).market, true, true) && cidx(final(self).market, true, false) >= cidx(old(self).market, true, false)
+                && cidx(final(self).market, false, true) >= cidx(old(self).market, false, true) && cidx(final(self).market, false, false) >= cidx(old(self).market, false, false),
+            // the stored rate becomes the reported next rate
+            r.is_ok() ==> final(self).market.factor == r.unwrap().next_funding_factor_per_second,
+//@body
+}
 } // verus!
